@@ -135,6 +135,37 @@ pub fn trivia_twin(src: &str, d: &Dumper, r: &mut Rng, stats: &mut Out) -> Strin
     rebuild(src, d, &mut gapf, &mut id)
 }
 
+/// a twin that *removes* blanks: gaps made of spaces / tabs only (no line break, no comment) are closed where the two
+/// neighbouring characters cannot merge into another token (`f (x)` → `f(x)`, `g() h()` → `g()h()`, `t = {} u()` →
+/// `t = {}u()`); a result that does not tokenise to the same sequence is discarded by the caller
+pub fn squeeze_twin(src: &str, d: &Dumper, r: &mut Rng, stats: &mut Out) -> String {
+    let rate = 4 + r.below(9);
+    let toks: Vec<(usize, usize)> = d.tokens.iter().map(|t| (t.0, t.1)).collect();
+    let mut id = |_: usize, s: &str| s.to_owned();
+    let is_word = |c: char| c.is_alphanumeric() || c == '_';
+    let mut gapf = |i: usize, g: &str| -> String {
+        if i == 0 || g.is_empty() || !g.chars().all(|c| c == ' ' || c == '\t') || !r.chance(rate, 12) {
+            return g.to_owned();
+        }
+        let prev = src[..toks[i - 1].1].chars().last().unwrap_or(' ');
+        let next = src[toks[i].0..].chars().next().unwrap_or(' ');
+        let closer = |c: char| matches!(c, ')' | ']' | '}' | '"' | '\'');
+        let opener = |c: char| matches!(c, '(' | '{' | '"' | '\'');
+        let safe = (closer(prev) && (is_word(next) || opener(next) || closer(next) || next == ',' || next == ';'))
+            || (is_word(prev) && (opener(next) || closer(next) || next == ',' || next == ';'))
+            || ((prev == ',' || prev == ';' || prev == '(' || prev == '{') && (is_word(next) || opener(next) || next == '{'))
+            || (prev == '=' && (opener(next) || is_word(next)))
+            || (is_word(prev) && next == '=' );
+        if safe {
+            stats.bump("squeeze_gap_closed");
+            String::new()
+        } else {
+            g.to_owned()
+        }
+    };
+    rebuild(src, d, &mut gapf, &mut id)
+}
+
 /// deterministic twins: an ordinary comment is put between every existing comment and the token that follows it
 /// (`same_line`: `… --[[ c ]] token`; otherwise a comment line of its own) — e.g. between a filter comment and its code
 pub fn comment_after_comments_twin(src: &str, d: &Dumper, same_line: bool, stats: &mut Out) -> String {
@@ -457,11 +488,16 @@ pub fn run(args: &Args, out: &mut Out, kind: &str) {
             }
         };
         let reps = if origin.starts_with("corpus") { 12 } else { 2 };
-        for rep_i in 0..reps + 2 {
-            if rep_i >= reps && !((kind == "c13" || kind == "c13r") && src.contains("--")) {
+        for rep_i in 0..reps + 4 {
+            if rep_i >= reps && rep_i < reps + 2 && !((kind == "c13" || kind == "c13r") && src.contains("--")) {
                 continue;
             }
-            let (twin_src, back) = if rep_i >= reps {
+            if rep_i >= reps + 2 && !(kind == "c13" || kind == "c13r") {
+                continue;
+            }
+            let (twin_src, back) = if rep_i >= reps + 2 {
+                (squeeze_twin(&src, &d, &mut rng, out), HashMap::new())
+            } else if rep_i >= reps {
                 (comment_after_comments_twin(&src, &d, rep_i == reps, out), HashMap::new())
             } else if kind == "c13" || kind == "c13r" {
                 (trivia_twin(&src, &d, &mut rng, out), HashMap::new())
